@@ -69,7 +69,8 @@ def birch_murnaghan_pressure(v, v0, b0, bp):
 
 def make_dataset(rng: numpy.random.Generator, nv: int = 6, nq: int = 2, na: int = 2,
                  system: Optional[str] = None, keys: Optional[List[str]] = None, lattice: bool = False,
-                 law: str = "power", settings: Optional[dict] = None, static_mesh: str = "same") -> DataSet:
+                 law: str = "power", settings: Optional[dict] = None, static_mesh: str = "same",
+                 lattice_curvature: bool = False) -> DataSet:
     v0 = float(rng.uniform(400.0, 700.0))
     vols = v0 * numpy.linspace(1.06, 0.86, nv)            # decreasing, strictly
     b0 = float(rng.uniform(150.0, 260.0)) / GPA_PER_RY_BOHR3
@@ -124,6 +125,10 @@ def make_dataset(rng: numpy.random.Generator, nv: int = 6, nq: int = 2, na: int 
         ax = rng.uniform(0.8, 3.0, size=3)
         ex = rng.dirichlet([8.0, 8.0, 8.0])               # a_i ~ V^{e_i}, sum e_i = 1
         lat = ax[None, :] * (svols[:, None] / vols[0]) ** ex[None, :]
+        if lattice_curvature:
+            # axis lengths that are NOT pure power laws of V (d ln a / d ln V varies along the table)
+            cc = rng.uniform(-0.6, 0.6, size=3)
+            lat = lat * numpy.exp(cc[None, :] * numpy.log(svols[:, None] / vols[0]) ** 2)
     st = {
         "qha": {"input": "input01", "settings": {"T_MIN": 0, "DT": 100, "NT": 6, "DT_SAMPLE": 100, "P_MIN": 0,
                                                   "DELTA_P": 1.0, "DELTA_P_SAMPLE": 1.0, "NTV": 16, "order": 3,
@@ -149,21 +154,23 @@ def _deep_update(d, u):
             d[k] = v
 
 
-def write_input01(path: str, ds: DataSet, fmt: str = "%.10f"):
-    """Own writer (not cij's write_energy), in the layout of the shipped examples."""
+def write_input01(path: str, ds: DataSet, fmt: str = "%.10f", number=None):
+    """Own writer (not cij's write_energy), in the layout of the shipped examples.  `number`: how a float is spelled (default
+    `repr`, the shortest exact decimal); e.g. `lambda x: "%.16E" % x` for exponent notation — any spelling `float()` reads."""
+    num = number if number is not None else repr
     with open(path, "w") as fp:
         fp.write(" synthetic\n generated by /verif/harness/synth.py\n nv nq np nm na:\n")
         fp.write("  %d  %d  %d  %d  %d\n\n" % (ds.nv, ds.nq, ds.np_, ds.nm, ds.na))
         for iv in range(ds.nv):
-            fp.write(" P=  %s  V=  %s  E=  %s\n" % (repr(float(ds.pressures[iv])), repr(float(ds.volumes[iv])),
-                                                    repr(float(ds.energies[iv]))))
+            fp.write(" P=  %s  V=  %s  E=  %s\n" % (num(float(ds.pressures[iv])), num(float(ds.volumes[iv])),
+                                                    num(float(ds.energies[iv]))))
             for iq in range(ds.nq):
-                fp.write("  " + "  ".join(repr(float(c)) for c in ds.q_coords[iq]) + "\n")
+                fp.write("  " + "  ".join(num(float(c)) for c in ds.q_coords[iq]) + "\n")
                 for m in range(ds.np_):
-                    fp.write(" " + repr(float(ds.freqs[iv, iq, m])) + "\n")
+                    fp.write(" " + num(float(ds.freqs[iv, iq, m])) + "\n")
         fp.write("\n weight\n")
         for iq in range(ds.nq):
-            fp.write("  " + "  ".join(repr(float(c)) for c in ds.q_coords[iq]) + "  " + repr(float(ds.weights[iq])) + "\n")
+            fp.write("  " + "  ".join(num(float(c)) for c in ds.q_coords[iq]) + "  " + num(float(ds.weights[iq])) + "\n")
 
 
 def write_elast(path: str, ds: DataSet, prefix: str = "c", upper: bool = False):
